@@ -3,10 +3,13 @@
 
 pub mod common;
 pub mod c01;
+pub mod c02;
+pub mod hist;
+pub mod c03;
 
 use crate::engine::{json, Case, Run};
 
-pub const ALL: [&str; 1] = ["C01"];
+pub const ALL: [&str; 3] = ["C01", "C02", "C03"];
 
 pub fn known(id: &str) -> bool {
     ALL.contains(&id)
@@ -15,6 +18,8 @@ pub fn known(id: &str) -> bool {
 pub fn run(run: &Run) {
     match run.prop.as_str() {
         "C01" => c01::run(run),
+        "C02" => c02::run(run),
+        "C03" => c03::run(run),
         _ => unreachable!(),
     }
 }
@@ -23,6 +28,8 @@ pub fn run(run: &Run) {
 pub fn replay_case(prop: &str, case: &Case) -> Result<Result<(), (String, String)>, String> {
     match prop {
         "C01" => c01::replay(case),
+        "C02" => c02::replay(case),
+        "C03" => c03::replay(case),
         _ => Err(format!("unknown property {}", prop)),
     }
 }
